@@ -181,6 +181,8 @@ Dev_InvalidIncludeAfterInvalidKept(e) ==
            invalid == {p \in Requested(e.req) : ~IsChain(e.out.restype, p)}
        IN /\ Len(good) < Len(e.out.include)
           /\ Cardinality(invalid) >= 2
+          \* every chain kept wrongly stands behind one that was taken out: at most half of them stay
+          /\ 2 * (Len(e.out.include) - Len(good)) <= Cardinality(invalid)
           /\ IncludeOK(e.req, [e.out EXCEPT !.include = good])
 \* URL.String cuts a separator that is not there when a type has no selected field and
 \* writes "fields%5Btype%": the text does not parse back to the same selection.  Pinned
